@@ -107,7 +107,12 @@ template<class Vis, bool RB = false> struct Interp {
 		case K_RANGE: { if(empty) break; L a = o.a % s0; L b = a + 1 + o.b % (s0 - a); MV nm = m_sliced(m, a, b);
 			with_cat(v, o.cat, [&](auto&& vv) { next(std::forward<decltype(vv)>(vv).range({f0 + a, f0 + b}), nm, cs("range({") + S(f0 + a) + "," + S(f0 + b) + "})"); }); return; }
 		case K_REINDEXED: if constexpr(RB) { if(empty) break; L r = o.a % 7 - 3;
-			with_cat_mut(v, o.cat, [&](auto&& vv) { next(std::forward<decltype(vv)>(vv).reindexed(r), m, cs("reindexed(") + S(r) + ")"); }); return; } break;
+			L const r2 = o.b % 5 - 2, r3 = (o.a / 7) % 5 - 2; int const form = (o.b / 5) % 3;  // one index, or one per leading dimension (2 or 3 of them)
+			auto firsts = [&](auto&& w, std::vector<L> want, std::string const& call) -> decltype(auto) { std::vector<L> got; std::apply([&](auto const&... x) { (got.push_back(L(x.first())), ...); }, w.extensions().base());  // the i-th argument becomes the first index of dimension i, the others keep theirs
+				if(got != want) violation("C19:reindexed:first-indices", call + " of a view whose first indices are " + join(fs) + " reports first indices " + join(got) + ", expected " + join(want)); return std::forward<decltype(w)>(w); };
+			if constexpr(D >= 3) { if(form == 2) { with_cat_mut(v, o.cat, [&](auto&& vv) { auto want = fs; want[0] = r; want[1] = r2; want[2] = r3; next(firsts(std::forward<decltype(vv)>(vv).reindexed(r, r2, r3), want, "reindexed(i,j,k)"), m, cs("reindexed(") + S(r) + "," + S(r2) + "," + S(r3) + ")"); }); return; } }
+			if constexpr(D >= 2) { if(form == 1) { with_cat_mut(v, o.cat, [&](auto&& vv) { auto want = fs; want[0] = r; want[1] = r2; next(firsts(std::forward<decltype(vv)>(vv).reindexed(r, r2), want, "reindexed(i,j)"), m, cs("reindexed(") + S(r) + "," + S(r2) + ")"); }); return; } }
+			with_cat_mut(v, o.cat, [&](auto&& vv) { auto want = fs; want[0] = r; next(firsts(std::forward<decltype(vv)>(vv).reindexed(r), want, "reindexed(i)"), m, cs("reindexed(") + S(r) + ")"); }); return; } break;
 		case K_BLOCKED: if constexpr(RB) { if(empty) break; L a = o.a % s0; L b = a + 1 + o.b % (s0 - a); MV nm = m_sliced(m, a, b); int cat = o.cat == 1 ? 0 : o.cat;
 			if(cat == 2) { auto&& w = std::forward<V>(v); next(w.blocked(f0 + a, f0 + b), nm, "blocked(" + S(f0 + a) + "," + S(f0 + b) + ")"); } else { next(v.blocked(f0 + a, f0 + b), nm, "blocked(" + S(f0 + a) + "," + S(f0 + b) + ")"); } return; } break;
 		case K_STENCILED: if constexpr(RB) { if(empty) break; L a = o.a % s0; L b = a + 1 + o.b % (s0 - a);
